@@ -1,5 +1,6 @@
 /-
-C19 (partial) — determinism of the one map-ordered loop, and restart safety of the store discipline. Property theorems only.
+C19 (partial) — determinism of the one map-ordered loop, restart safety of the store discipline, and what the fresh-process
+replica decides. Property theorems only.
 What is NOT modelled: goroutine scheduling, wall-clock reads inside dependencies, the Go runtime itself; those are covered only
 by the replica runs (harness/c19.go), which are tests.
 -/
@@ -50,6 +51,40 @@ theorem restart_sim (step : P → T → B → P × T) (t0 : T) (m0 : M) (s : Sta
       · simp [commit, blockStep, hp, ht]
       · simp [commit]
   exact key _ _ rfl rfl
+
+/-- if no block's result depends on process memory, the node that never stops and the node that runs every block in a fresh
+process hold the same stores after every history -/
+theorem fresh_process_sim (step : P → T → M → B → (P × T) × M) (hind : MemIndependent step) (t0 : T) (m0 : M)
+    (s : State P T M) (bs : List B) :
+    (runFresh step t0 m0 s bs).p = (runKeep step t0 s bs).p ∧ (runFresh step t0 m0 s bs).t = (runKeep step t0 s bs).t := by
+  have key : ∀ (a b : State P T M), a.p = b.p → a.t = b.t →
+      (runFresh step t0 m0 a bs).p = (runKeep step t0 b bs).p ∧ (runFresh step t0 m0 a bs).t = (runKeep step t0 b bs).t := by
+    induction bs with
+    | nil => intro a b hp ht; exact ⟨hp, ht⟩
+    | cons blk bs ih =>
+      intro a b hp ht
+      apply ih
+      · simp only [commit, blockStepM, hp, ht]
+        rw [hind b.p b.t m0 b.m blk]
+      · simp [commit]
+  exact key _ _ rfl rfl
+
+/-- hence the fresh-process replica is a sound detector: two different persistent stores after some history prove that some
+block read process memory -/
+theorem fresh_process_detects (step : P → T → M → B → (P × T) × M) (t0 : T) (m0 : M) (s : State P T M) (bs : List B)
+    (h : (runFresh step t0 m0 s bs).p ≠ (runKeep step t0 s bs).p) : ¬ MemIndependent step :=
+  fun hind => h (fresh_process_sim step hind t0 m0 s bs).1
+
+/-- WITNESS (the shape of seeded change C19-1): memory holds a constant `k` (2 at process start); block `true` overwrites it in
+place (even when the block's own result is discarded), block `false` adds it to the store. In-process replicas — which share
+the memory — agree with each other; the fresh-process replica does not. -/
+theorem shared_constant_witness :
+    let step : Int → Unit → Int → Bool → (Int × Unit) × Int := fun p _ k b => if b then ((p, ()), k * 7) else ((p + k, ()), k)
+    (runKeep step () ⟨0, (), 2⟩ [true, false]).p = 14 ∧ (runFresh step () 2 ⟨0, (), 2⟩ [true, false]).p = 2 ∧ ¬ MemIndependent step := by
+  refine ⟨by decide, by decide, ?_⟩
+  intro h
+  have := h 0 () 2 3 false
+  simp at this
 
 /-- non-vacuity: three denoms burned in two different orders -/
 example : (burnAll [("uusdc", 1000), ("uatom", 500), ("uelys", 70)] [("uusdc", 100), ("uatom", 50), ("uelys", 7)]).get "uatom" =
